@@ -23,6 +23,8 @@ pub enum Sym {
     Psh(u32),
     Fin(u32),
     SynAck(u32),
+    /// a verdict that carries a failure reason (the target refused)
+    SynAckErr(u32),
     /// local operation: the user of the stream closes it (close_with_error) while no read is in progress
     Close(u32),
     /// local operation (server role): the task that accepts new streams has ended — the new-stream callback's channel is
@@ -33,7 +35,7 @@ pub enum Sym {
 impl Sym {
     fn id(&self) -> u32 {
         match self {
-            Sym::Syn(i) | Sym::Psh(i) | Sym::Fin(i) | Sym::SynAck(i) | Sym::Close(i) => *i,
+            Sym::Syn(i) | Sym::Psh(i) | Sym::Fin(i) | Sym::SynAck(i) | Sym::SynAckErr(i) | Sym::Close(i) => *i,
             Sym::CallbackGone => 0,
         }
     }
@@ -43,6 +45,7 @@ impl Sym {
             Sym::Psh(i) => format!("PSH{i}"),
             Sym::Fin(i) => format!("FIN{i}"),
             Sym::SynAck(i) => format!("SYNACK{i}"),
+            Sym::SynAckErr(i) => format!("SYNACK-error{i}"),
             Sym::Close(i) => format!("close{i}"),
             Sym::CallbackGone => "callback-gone".to_string(),
         }
@@ -110,6 +113,7 @@ fn server_scenario(h: Vec<Sym>, out_slot: Arc<Mutex<Option<RunObs>>>) -> Scenari
                     }
                     Sym::Fin(i) => peer.send(FIN, *i, b""),
                     Sym::SynAck(i) => peer.send(SYNACK, *i, b""),
+                    Sym::SynAckErr(i) => peer.send(SYNACK, *i, b"connect to target failed: connection refused"),
                     Sym::Close(i) => {
                         for (id, st) in &live {
                             if id == i {
@@ -190,6 +194,7 @@ fn client_scenario(h: Vec<Sym>, out_slot: Arc<Mutex<Option<RunObs>>>) -> Scenari
                     }
                     Sym::Fin(i) => peer.send(FIN, *i, b""),
                     Sym::SynAck(i) => peer.send(SYNACK, *i, b""),
+                    Sym::SynAckErr(i) => peer.send(SYNACK, *i, b"connect to target failed: connection refused"),
                     Sym::Close(i) => {
                         for (id, st, _) in &live {
                             if id == i {
@@ -239,7 +244,7 @@ fn bx(rep: &mut Report, tier: Tier) {
         let alphabet: Vec<Sym> = if server {
             vec![Sym::Syn(1), Sym::Syn(2), Sym::Psh(1), Sym::Psh(2), Sym::Psh(3), Sym::Fin(1), Sym::Fin(2), Sym::Fin(3)]
         } else {
-            vec![Sym::Psh(1), Sym::Psh(2), Sym::Psh(3), Sym::Fin(1), Sym::Fin(2), Sym::Fin(3), Sym::SynAck(1), Sym::SynAck(2), Sym::SynAck(3), Sym::Syn(1)]
+            vec![Sym::Psh(1), Sym::Psh(2), Sym::Psh(3), Sym::Fin(1), Sym::Fin(2), Sym::Fin(3), Sym::SynAck(1), Sym::SynAck(2), Sym::SynAck(3), Sym::SynAckErr(1), Sym::Syn(1)]
         };
         let depth = if server { depth } else { depth - 1 };
         // local operations (at most one per history; histories containing one are explored one level less deep on the server)
@@ -399,7 +404,7 @@ fn model_single(h: &[Sym]) -> Vec<StreamObs> {
                     open = false;
                 }
             }
-            Sym::SynAck(_) | Sym::Close(_) | Sym::CallbackGone => {}
+            Sym::SynAck(_) | Sym::SynAckErr(_) | Sym::Close(_) | Sym::CallbackGone => {}
         }
     }
     incs
